@@ -175,6 +175,35 @@ Theorem cut_balanced_returns argsort n D m sort ret :
 Proof. exact (cut_balanced_total argsort n D m sort ret). Qed.
 Print Assumptions cut_balanced_returns.
 
+(** 6. Dasgupta's cost, as computed by the replay of get_sampling_distributions over the AggregateGraph
+    (dict-of-dict neighbours, merged row by row), equals its definition: the edge-weighted average, over the
+    edges (u, v) of the graph, of the size (weights = 'uniform') or volume (weights = 'degree': mean of out- and
+    in-volume) of the SMALLEST cluster of the tree containing both u and v ([dasgupta_spec] is written with
+    [smallest_common], a minimum over all clusters of the tree, not with the replay).
+    Graph: COO triples with endpoints in range, no self-loop (a self-loop has no smallest common merge: the code
+    charges it to the first merge of its node), positive total weight. *)
+Theorem dasgupta_is_lca_average degree n G D :
+  valid n D = true ->
+  (forall e, In e G -> e_src e < n /\ e_dst e < n /\ e_src e <> e_dst e) ->
+  (0 < total_weight G)%Q -> 2 <= n -> G <> [] ->
+  exists c, dasgupta_cost degree n G D false = Ok c /\ (c == dasgupta_spec degree n G D)%Q.
+Proof. exact (dasgupta_cost_is_spec degree n G D). Qed.
+Print Assumptions dasgupta_is_lca_average.
+
+(** Dasgupta's score (1 - normalised cost) lies in [0, 1] for non-negative weights. *)
+Theorem dasgupta_score_in_unit_interval degree n G D :
+  valid n D = true ->
+  (forall e, In e G -> e_src e < n /\ e_dst e < n /\ e_src e <> e_dst e) ->
+  (forall e, In e G -> (0 <= e_w e)%Q) ->
+  (0 < total_weight G)%Q -> 2 <= n -> G <> [] ->
+  exists s, dasgupta_score degree n G D = Ok s /\ (0 <= s <= 1)%Q.
+Proof. exact (dasgupta_score_unit degree n G D). Qed.
+Print Assumptions dasgupta_score_in_unit_interval.
+
+(** tree_sampling_divergence is modelled ([tsd_terms], [mi_terms], [tree_sampling_divergence] over a [ln]
+    oracle) and compared with the implementation at run time; its bounds (Gibbs' inequality) are NOT proved
+    here: they are checked on every run by the harness (partial, see the evidence). *)
+
 (** The stable argsort meets the oracle contract (the hypotheses above are satisfiable). *)
 Theorem argsort_contract_satisfiable : argsort_ok stable_argsort.
 Proof. exact stable_argsort_ok. Qed.
@@ -189,4 +218,12 @@ Example c08_nonvacuous :
   cut_straight stable_argsort D None (Some (5 # 2)%Q) true false = Ok ([0; 0; 1; 1; 2], None) /\
   cut_balanced stable_argsort D 3 true false = Ok ([0; 0; 1; 1; 0], None) /\
   leaves 5 D 7 = [0; 1; 4].
+Proof. vm_compute. repeat split; reflexivity. Qed.
+
+Example c08_metrics_nonvacuous :
+  let D := [(0, 1, 2%Q, 2); (2, 3, 1%Q, 2); (5, 4, 3%Q, 3); (6, 7, 4%Q, 5)] in
+  let G := [(0, 1, 1%Q); (1, 0, 1%Q); (1, 2, 2%Q); (2, 1, 2%Q); (0, 3, 1%Q); (3, 0, 1%Q); (3, 4, 3%Q); (4, 3, 3%Q)] in
+  dasgupta_cost false 5 G D false = Ok (32 # 7)%Q /\ (dasgupta_spec false 5 G D == 32 # 7)%Q /\
+  dasgupta_cost true 5 G D false = Ok (89 # 7)%Q /\ (dasgupta_spec true 5 G D == 89 # 7)%Q /\
+  dasgupta_score false 5 G D = Ok (3 # 35)%Q.
 Proof. vm_compute. repeat split; reflexivity. Qed.
